@@ -53,6 +53,7 @@ func ordinalKey(counts map[string]int, base string) string {
 func runC09(c *core.Ctx) {
 	defer func() {
 		c.Share(map[string]string{"R3.1": "R9.7", "R3.4": "R9.13"}, runC03)
+		c.Share(map[string]string{"R10.1": "R9.15"}, runC10) // a refused L1 write that leaves the old copy leaves it with the old expiry too
 		c.Share(map[string]string{"R17.8": "R9.14"}, runC17) // an in-memory L1 that orders a far deadline before now loses the key before the expiry asked for
 		c.Share(map[string]string{"R1.21": "R9.12"}, runC01) // the back-fill of a get gives L1 "L2's remaining lifetime": the expiry decoded from the gete reply // get-and-touch under the shared lock races the back-fill of a get: L1 keeps the old expiry
 	}()
